@@ -10,6 +10,7 @@ import (
 	"fmt"
 	"os"
 	"path/filepath"
+	"strconv"
 	"strings"
 
 	sdk "github.com/cosmos/cosmos-sdk/types"
@@ -84,6 +85,9 @@ func runHistory(ops []string, st *Stats, engine string) (*monitor.Trace, []strin
 		}
 		if res.Hash != "" {
 			out = append(out, "# apphash "+res.Hash)
+		}
+		if res.Detail != "" && res.Line != "ok" {
+			out = append(out, "# detail "+strconv.QuoteToASCII(res.Detail))
 		}
 		tr.Steps = append(tr.Steps, monitor.Step{Op: op, Res: res.Line, Detail: res.Detail, Dump: res.Dump})
 		if st != nil {
